@@ -5,7 +5,9 @@ import Holpy.C01.GenAxioms
 Line protocol of the kernel model (C01; also used by C03):
   (rule NAME ARG (THM*))                      -> (ok THM) | (err KIND)        one checker step
   (ruleax NAME ARGX (THM*))                   -> (ok THM) | (err KIND)        one checker step over logic_base:
-       ARGX = (name THEOREM-NAME) | ARG; rule `theorem` copies a stored theorem (GenAxioms: axioms ++ proved theorems)
+       ARGX = (name THEOREM-NAME) | (var NAME Ty) | ARG; rule `theorem` copies a stored theorem (GenAxioms: axioms ++
+       proved theorems), rule `variable` is mk_VAR
+  (rulest NAME ARGX (THM*) STATED)            -> the same with a stated sequent: STATED = (none) | THM
   (cex THM SPEC BUDGET SEED MAXCOST)          -> (valid N T|F) | (cex ((kind name Ty val)*)) | (skip WHY)
   (cexstd THM SPEC BUDGET SEED MAXCOST)       -> the same, over standard valuations of the base logic only
        SPEC = (((name size)*) ((name size)*) ((name size)*) default)   sizes of stvars / tvars / type constructors
@@ -41,7 +43,12 @@ def theoryTheorems : List (String × Thm) :=
 
 def argAxOf : Sexp → Option ArgAx
   | .list [.atom "name", .atom n] => some (.name n)
+  | .list [.atom "var", .atom n, T] => do some (.var n (← tyOf T))
   | s => (argOf s).map .prim
+
+def statedOf : Sexp → Option (Option Thm)
+  | .list [.atom "none"] => some none
+  | s => (thmOf s).map some
 
 def verdictTo : Oracle.Verdict → String
   | .valid n ex => toString (Sexp.list [.atom "valid", Sexp.ofNat n, Sexp.ofBool ex])
@@ -58,6 +65,13 @@ def handle (line : String) : String :=
       | .ok th => toString (Sexp.list [.atom "ok", thmTo th])
       | .error e => toString (Sexp.list [.atom "err", .atom (rerrTo e)])
     | _, _ => "bad-op"
+  | some (.list [.atom "rulest", .atom name, arg, .list prems, stated]) =>
+    match argAxOf arg, prems.mapM thmOf, statedOf stated with
+    | some a, some ps, some st =>
+      match checkStepSt theoryTheorems name a ps st with
+      | .ok th => toString (Sexp.list [.atom "ok", thmTo th])
+      | .error e => toString (Sexp.list [.atom "err", .atom (rerrTo e)])
+    | _, _, _ => "bad-op"
   | some (.list [.atom "cexstd", th, spec, budget, seed, maxCost]) =>
     match thmOf th, specOf spec, budget.toNat?, seed.toNat?, maxCost.toNat? with
     | some t, some s, some b, some sd, some mc => verdictTo (Oracle.searchStd s.toModel t b sd mc)
